@@ -1,6 +1,6 @@
 (* RunHLL.v — token-level driver for the in-memory HyperLogLog machine (machine 5). *)
-From GX.Model Require Import Base HLL.
-From GX.Runner Require Import RunCMS.
+From GX.Model Require Import Base HLL Codec Persist.
+From GX.Runner Require Import RunCMS RunGeneric.
 
 Definition T_WILD : tok := TL [TN 77].
 
@@ -15,8 +15,8 @@ Definition tu {A} (o : outcome A) : tok := tout (fun _ => tunit) o.
 
 Definition hll_step (st : list (option hll)) (op : tok) : list (option hll) * tok :=
   match tok_L op with
-  | [TN 0; TN i; TN m] =>
-      match hll_new m with
+  | [TN 0; TN i; TN m; TN al] =>
+      match hll_new m al with
       | Ok s => (set_inst st (N.to_nat i) s, tu (Ok tt))
       | Err t => (st, tu (@Err unit t))
       | Panic t => (st, tu (@Panic unit t))
@@ -67,12 +67,27 @@ Definition hll_step (st : list (option hll)) (op : tok) : list (option hll) * to
   | _ => (st, T_INVALID)
   end.
 
-Fixpoint hll_run (st : list (option hll)) (ops : list tok) : list tok :=
+End Run.
+
+Definition orc_ftext (orc : oracle) (bits : N) : bytes := oracle_get orc [778; bits] [].
+Definition orc_fbits (orc : oracle) (txt : bytes) : N := hd 0 (oracle_get orc [777] txt).
+
+Definition hll_mut (s : hll) (args : list tok) : hll :=
+  match args with
+  | [TN i; TN v] => mkHll (h_m s) (h_p s) (h_alpha s) (setnth (h_regs s) (N.to_nat i) v)
+  | _ => s
+  end.
+Definition hll_gen (orc : oracle) :=
+  @gen_step hll (fun h => Ok (enc_hll h)) hll_write_ret dec_hll hll_equals
+            (fun h => Ok (doc_hll (orc_ftext orc) h)) (imp_hll (orc_fbits orc)) hll_mut.
+
+Fixpoint hll_run (orc : oracle) (st : list (option hll)) (ops : list tok) : list tok :=
   match ops with
   | [] => []
-  | op :: t => let r := hll_step st op in snd r :: hll_run (fst r) t
+  | op :: t =>
+      let r := if is_generic op then hll_gen orc st op else hll_step orc st op in
+      snd r :: hll_run orc (fst r) t
   end.
-End Run.
 
 Definition run_hll_case (c : list tok) : tok :=
   match c with
